@@ -300,6 +300,51 @@ def h_unary_misc(eng, u):
                 eng.prove(got == fn(val * iu.num), f"{name}:value:{val}")
 
 
+def h_other_numeric_types(eng, tname, pairs):
+    """float, int and Decimal magnitudes: the operators give physically equal results whatever
+    compatible units the operands are written in (to the precision of the type); comparisons agree
+    away from ties"""
+    import decimal
+
+    import pint
+
+    if tname == "Decimal":
+        ureg = getattr(h_other_numeric_types, "_dec", None)
+        if ureg is None:
+            ureg = h_other_numeric_types._dec = pint.UnitRegistry(non_int_type=decimal.Decimal)
+        num, tol = (lambda v: decimal.Decimal(str(v))), Fraction(1, 10**22)
+    else:
+        ureg = regs.float_default()
+        num, tol = ((lambda v: v) if tname == "float" else (lambda v: int(v))), Fraction(1, 10**12)
+    inf = covers.infos()
+    vals = [(7, 3), (-2, 5), (1000, 1)] if tname == "int" else [(2.5, 0.75), (-1.25e3, 3.5e-2), (1e-9, 4e5)]
+
+    def phys(r):
+        rr = r.to_root_units() if hasattr(r, "to_root_units") else r
+        return Fraction(rr.magnitude if hasattr(rr, "magnitude") else rr), (dict(rr.dimensionality) if hasattr(rr, "dimensionality") else {})
+
+    for u, u2, v, v2 in pairs:
+        for xv, yv in vals:
+            a, b = ureg.Quantity(num(xv), u), ureg.Quantity(num(yv), v)
+            a2, b2 = a.to(u2), b.to(v2)
+            for name in ("add", "sub", "mul", "truediv"):
+                f = BINOPS[name]
+                (m1, d1), (m2, d2) = phys(f(a, b)), phys(f(a2, b2))
+                eng.prove(d1 == d2, f"{tname}:{name}:dimensionality:{u},{v}")
+                scale = max(abs(m1), abs(m2), abs(Fraction(xv) * inf[u].num)) if name in ("add", "sub") else max(abs(m1), abs(m2))
+                eng.prove(abs(m1 - m2) <= tol * scale, f"{tname}:{name}:value:{u},{v}")
+            pa, pb = Fraction(xv) * inf[u].num, Fraction(yv) * inf[v].num
+            if abs(pa - pb) > Fraction(1, 10**6) * max(abs(pa), abs(pb)):
+                for name in ("lt", "le", "gt", "ge", "eq", "ne"):
+                    f = BINOPS[name]
+                    want = f(pa, pb)
+                    eng.prove(bool(f(a, b)) == want and bool(f(a2, b2)) == want, f"{tname}:{name}:{u},{v}")
+            (mn, dn), (mn2, dn2) = phys(-a), phys(-a2)
+            eng.prove(abs(mn - mn2) <= tol * abs(mn) and dn == dn2, f"{tname}:neg:{u}")
+            (mp, dp), (mp2, dp2) = phys(a**2), phys(a2**2)
+            eng.prove(abs(mp - mp2) <= tol * abs(mp) and dp == dp2, f"{tname}:pow2:{u}")
+
+
 def h_bare_number(eng, op, u, side):
     """a bare number is accepted by + and - iff the quantity is dimensionless or the number is zero"""
     ureg = regs.default(eng)
@@ -394,6 +439,17 @@ def cases(tier, seed):
             out.append(Case("H03.b", f"power-forms:{u}**{k}", M, "h_power_forms", {"u": u, "k": k}))
     for u in ("meter", "percent", "radian", "count", "ppm", "newton"):
         out.append(Case("H03.b", f"unary-misc:{u}", M, "h_unary_misc", {"u": u}))
+    # H03.d other numeric types (concrete): float, int, Decimal
+    quads = []
+    for u, v in pairs[: (200 if big else 12)]:
+        cu, cv = _canon(u), _canon(v)
+        if not any(inf[n].inexact for n in (cu, cv)):
+            u2, v2 = alt(cu), alt(cv)
+            if not inf[u2].inexact and not inf[v2].inexact:
+                quads.append([cu, u2, cv, v2])
+    for tname in ("float", "int", "Decimal"):
+        for i in range(0, len(quads), 6):
+            out.append(Case("H03.d", f"{tname}:{i:04d}", M, "h_other_numeric_types", {"tname": tname, "pairs": quads[i : i + 6]}, kind="conc"))
     # H03.c admissibility
     for op in ("add", "sub"):
         for u in ("meter", "radian", "percent", "count", "newton", "ppm", "degree", "byte"):
